@@ -87,22 +87,7 @@ Proof.
   - apply (prun_wf ops _ Hs Hf).
 Qed.
 
-(** Length: an independent specification in Z with explicit clamps. *)
-Definition clampZ (x : Z) : Z := Z.max 0 (Z.min (M - 1) x).
-
-Fixpoint len_spec (l : option Z) (ops : list pop) : option Z :=
-  match ops with
-  | [] => l
-  | o :: r =>
-      match o with
-      | SetLen n => len_spec (Some (Z.of_N n)) r
-      | IncLen d => len_spec (option_map (fun n => clampZ (n + Z.of_N d)) l) r
-      | DecLen d => len_spec (option_map (fun n => clampZ (n - Z.of_N d)) l) r
-      | UnsetLen => len_spec None r
-      | _ => len_spec l r
-      end
-  end.
-
+(** Length ([len_spec], [clampZ] are in model/Pos.v). *)
 Lemma len_history_gen ops : forall s,
   st_wf s -> Forall op_wf ops ->
   option_map Z.of_N (len (prun s ops)) = len_spec (option_map Z.of_N (len s)) ops.
@@ -127,14 +112,6 @@ Proof.
 Qed.
 
 (** is_finished() *)
-Fixpoint fin_spec (f : bool) (ops : list pop) : bool :=
-  match ops with
-  | [] => f
-  | Finish _ :: r => fin_spec true r
-  | ResetAll :: r => fin_spec false r
-  | _ :: r => fin_spec f r
-  end.
-
 Theorem finished_history ops : forall s, finished (prun s ops) = fin_spec (finished s) ops.
 Proof.
   induction ops as [|o r IH]; cbn [prun fold_left fin_spec]; intros s; [reflexivity|].
@@ -143,9 +120,6 @@ Qed.
 
 (** Concurrent increments: every interleaving of per-thread Inc/Dec lists
     yields the same final position – the sum of all deltas, mod 2^64. *)
-Definition total_delta (ts : list (list pop)) : Z :=
-  fold_right (fun t a => sum_delta t + a) 0 ts.
-
 Lemma total_delta_app a b : total_delta (a ++ b) = total_delta a + total_delta b.
 Proof. induction a as [|t a IH]; cbn; [reflexivity|]. unfold total_delta in *. cbn. rewrite IH. ring. Qed.
 
@@ -184,4 +158,26 @@ Proof.
     rewrite !total_delta_app. unfold total_delta at 2 4. cbn [fold_right sum_delta].
     fold (total_delta post). fold (sum_delta t).
     rewrite Zplus_mod_idemp_l. f_equal. ring.
+Qed.
+
+(** Any interleaving of ANY operations: the merged history is an ordinary history. *)
+Lemma Merge_Forall {A} (P : A -> Prop) ts l :
+  Merge ts l -> Forall (Forall P) ts -> Forall P l.
+Proof.
+  induction 1 as [ts Hn | pre x t post l HM IH]; intros Hall; [constructor|].
+  apply Forall_app in Hall. destruct Hall as [Hpre Hrest].
+  inversion Hrest as [|? ? Hxt Hpost]; subst. inversion Hxt as [|? ? Hx Ht]; subst.
+  constructor; [exact Hx|]. apply IH. apply Forall_app. split; [exact Hpre|]. constructor; assumption.
+Qed.
+
+Theorem interleaving_any l0 ts l :
+  match l0 with Some n => (n < U64)%N | None => True end ->
+  Merge ts l -> Forall (Forall op_wf) ts ->
+  Z.of_N (pos (prun (pinit l0) l)) = pos_spec 0 l0 l mod M
+  /\ option_map Z.of_N (len (prun (pinit l0) l)) = len_spec (option_map Z.of_N l0) l
+  /\ finished (prun (pinit l0) l) = fin_spec false l.
+Proof.
+  intros Hl HM Hall. pose proof (Merge_Forall op_wf ts l HM Hall) as Hf.
+  split; [apply (pos_history l0 l Hl Hf)|]. split; [apply (len_history l0 l Hl Hf)|].
+  apply (finished_history l (pinit l0)).
 Qed.
